@@ -83,7 +83,8 @@ ASSUMPTIONS = ['bitwidths are >= 1 (WireVector.__init__ enforces it; boolean pre
                '1..n) -- premise of C03_simulation_netlist only',
                'designs of part (b) are limited to widths <= 33 (Wallace trees of wider multipliers make '
                'Simulation of the gate netlist too slow for the budget); the theorems are for all widths',
-               'Coq shapeb is evaluated on real blocks of <= %d nets (it is quadratic); larger blocks are checked '
+               'Coq shapeb is evaluated on real blocks of <= %d nets (it is quadratic; in the quick tier on all directed and '
+               'every other random design); the other blocks are checked '
                'by its Python mirror, and the two are compared wherever both run']
 
 SHAPE_MAX_NETS = 1000   # Coq shapeb is quadratic; larger blocks are checked by its Python mirror only
@@ -348,54 +349,58 @@ def part_a(ctx, only=None):
                 ctx.spec_violation('synthesize:shape', 'a bit of the synthesized op design %dx%d is not driven by a tree of '
                                    '1-bit gates: %s' % (wa, wb, e), {'part': 'a', 'wa': wa, 'wb': wb})
         reported = set()
-        for x in range(1 << wa):
-            for y in range(1 << wb):
-                for s in (0, 1):
-                    vals = {'a': x, 'b': y, 's': s}
-                    sim.step(step_inputs(post, orig_inputs, vals, merge))
-                    sample = None
-                    if (wa, wb, x, y, s) in ((2, 2, 1, 3, 0), (3, 2, 5, 2, 1)):
-                        sample = {'part': 'a', 'wa': wa, 'wb': wb, 'x': x, 'y': y, 's': s,
-                                  'synthesized_outputs': {nm: read_output(sim, post, orig_outputs[nm], merge)
-                                                          for nm in outs}}
-                    ctx.case(('a', wa, wb, x, y, s), nontrivial=True, sample=sample)
-                    for nm in outs:
-                        got = read_output(sim, post, orig_outputs[nm], merge)
-                        exp = expected(nm, wa, wb, n, x, y, s)
-                        rep = {'part': 'a', 'op': nm, 'wa': wa, 'wb': wb, 'x': x, 'y': y, 's': s,
-                               'merge_io_vectors': merge, 'expected': exp, 'got': got,
-                               'repro': "a=Input(%d,'a'); b=Input(%d,'b'); o=Output(name='o'); o<<=<a %s b>; "
-                                        "synthesize(); Simulation().step({'a':%d,'b':%d})" % (wa, wb, nm, x, y)}
-                        if got != exp and (nm, 'spec') not in reported:
-                            reported.add((nm, 'spec'))
-                            if nm in ('sub', 'sub_r') and (got ^ exp) == (1 << n):
-                                sig = 'synthesize:sub-top-bit'
-                                what = ('synthesized a-b at full result width has its top bit inverted '
-                                        '(%d-bit %d - %d: expected %d, got %d)' % (n, x, y, exp, got))
-                            else:
-                                sig = 'synthesize:op=%s' % nm
-                                what = 'synthesized %s wrong at widths %dx%d: %d,%d -> %d, expected %d' % (
-                                    nm, wa, wb, x, y, got, exp)
-                            ctx.spec_violation(sig, what, rep)
-                        if res is not None and nm in OPS:
-                            mv = model[(nm, n)][x][y]
-                            if mv != got and (nm, 'model') not in reported:
-                                reported.add((nm, 'model'))
-                                ctx.model_mismatch('Coq basic_%s and the real synthesized %s disagree at width %d: '
-                                                   'x=%d y=%d model=%d real=%d' % (nm, nm, n, x, y, mv, got), rep)
-                        if res is not None and nm.endswith('_r') and nm[:-2] in OPS:
-                            mv = model[(nm[:-2], n)][y][x]
-                            if mv != got and (nm, 'model') not in reported:
-                                reported.add((nm, 'model'))
-                                ctx.model_mismatch('Coq basic_%s (operands swapped) and the real synthesized %s disagree at '
-                                                   'width %d: x=%d y=%d model=%d real=%d' % (nm[:-2], nm, n, x, y, mv, got), rep)
-                        if res is not None and nm in ('sel', 'sel_r'):
-                            # _basic_select(s, falsecase, truecase): select(s, a, b) has truecase a
-                            mv = model[('sel', n)][s][y][x] if nm == 'sel' else model[('sel', n)][s][x][y]
-                            if mv != got and (nm, 'model') not in reported:
-                                reported.add((nm, 'model'))
-                                ctx.model_mismatch('Coq basic_select and the real synthesized select disagree at '
-                                                   'width %d: s=%d x=%d y=%d model=%d real=%d' % (n, s, x, y, mv, got), rep)
+        try:     # a Python error while stepping the synthesized block is a finding, not a harness crash
+            for x in range(1 << wa):
+                for y in range(1 << wb):
+                    for s in (0, 1):
+                        vals = {'a': x, 'b': y, 's': s}
+                        sim.step(step_inputs(post, orig_inputs, vals, merge))
+                        sample = None
+                        if (wa, wb, x, y, s) in ((2, 2, 1, 3, 0), (3, 2, 5, 2, 1)):
+                            sample = {'part': 'a', 'wa': wa, 'wb': wb, 'x': x, 'y': y, 's': s,
+                                      'synthesized_outputs': {nm: read_output(sim, post, orig_outputs[nm], merge)
+                                                              for nm in outs}}
+                        ctx.case(('a', wa, wb, x, y, s), nontrivial=True, sample=sample)
+                        for nm in outs:
+                            got = read_output(sim, post, orig_outputs[nm], merge)
+                            exp = expected(nm, wa, wb, n, x, y, s)
+                            rep = {'part': 'a', 'op': nm, 'wa': wa, 'wb': wb, 'x': x, 'y': y, 's': s,
+                                   'merge_io_vectors': merge, 'expected': exp, 'got': got,
+                                   'repro': "a=Input(%d,'a'); b=Input(%d,'b'); o=Output(name='o'); o<<=<a %s b>; "
+                                            "synthesize(); Simulation().step({'a':%d,'b':%d})" % (wa, wb, nm, x, y)}
+                            if got != exp and (nm, 'spec') not in reported:
+                                reported.add((nm, 'spec'))
+                                if nm in ('sub', 'sub_r') and (got ^ exp) == (1 << n):
+                                    sig = 'synthesize:sub-top-bit'
+                                    what = ('synthesized a-b at full result width has its top bit inverted '
+                                            '(%d-bit %d - %d: expected %d, got %d)' % (n, x, y, exp, got))
+                                else:
+                                    sig = 'synthesize:op=%s' % nm
+                                    what = 'synthesized %s wrong at widths %dx%d: %d,%d -> %d, expected %d' % (
+                                        nm, wa, wb, x, y, got, exp)
+                                ctx.spec_violation(sig, what, rep)
+                            if res is not None and nm in OPS:
+                                mv = model[(nm, n)][x][y]
+                                if mv != got and (nm, 'model') not in reported:
+                                    reported.add((nm, 'model'))
+                                    ctx.model_mismatch('Coq basic_%s and the real synthesized %s disagree at width %d: '
+                                                       'x=%d y=%d model=%d real=%d' % (nm, nm, n, x, y, mv, got), rep)
+                            if res is not None and nm.endswith('_r') and nm[:-2] in OPS:
+                                mv = model[(nm[:-2], n)][y][x]
+                                if mv != got and (nm, 'model') not in reported:
+                                    reported.add((nm, 'model'))
+                                    ctx.model_mismatch('Coq basic_%s (operands swapped) and the real synthesized %s disagree at '
+                                                       'width %d: x=%d y=%d model=%d real=%d' % (nm[:-2], nm, n, x, y, mv, got), rep)
+                            if res is not None and nm in ('sel', 'sel_r'):
+                                # _basic_select(s, falsecase, truecase): select(s, a, b) has truecase a
+                                mv = model[('sel', n)][s][y][x] if nm == 'sel' else model[('sel', n)][s][x][y]
+                                if mv != got and (nm, 'model') not in reported:
+                                    reported.add((nm, 'model'))
+                                    ctx.model_mismatch('Coq basic_select and the real synthesized select disagree at '
+                                                       'width %d: s=%d x=%d y=%d model=%d real=%d' % (n, s, x, y, mv, got), rep)
+        except Exception as e_run:
+            ctx.spec_violation('synthesize:testbench-raises', 'stepping the synthesized op design %dx%d raised %s: %s' % (
+                wa, wb, type(e_run).__name__, str(e_run)[:200]), {'part': 'a', 'wa': wa, 'wb': wb, 'merge_io_vectors': merge})
     structural_tie(ctx, 'c03struct', struct_items)
 
 
@@ -1119,104 +1124,113 @@ def part_b(ctx, only=None):
         toggled = sum(1 for k in range(len(outnames)) if len({row[k] for row in t_orig}) > 1)
         nontrivial = (2 * toggled >= len(outnames)) or bool(d.regs) or bool(d.mems)
         for merge, uwb in CONFIGS:
-            rep = dict(base_rep, merge_io_vectors=merge, update_working_block=uwb)
-            pyrtl.set_working_block(block, no_sanity_check=True)
-            try:
-                post = pyrtl.synthesize(update_working_block=uwb, merge_io_vectors=merge, block=block)
-            except Exception as e:   # PyRTL errors and plain Python errors (IndexError, KeyError...) alike
-                has_mem = bool(orig_memories(block))
-                sig = ('synthesize:unmerged-io-memory-raises' if (not merge and has_mem and 'acceptable set' in str(e))
-                       else 'synthesize:raises')
-                ctx.spec_violation(sig, 'synthesize(merge_io_vectors=%s) raised %s on a well-formed design%s: %s' % (
-                    merge, type(e).__name__, ' with a memory' if has_mem else '', str(e)[:200]), rep)
-                ctx.case(('b', i, merge, uwb, 'raised'), nontrivial=nontrivial)
+            try:     # an unexpected exception in one configuration must not abort the whole run
+                rep = dict(base_rep, merge_io_vectors=merge, update_working_block=uwb)
                 pyrtl.set_working_block(block, no_sanity_check=True)
-                continue
-            wb_now = pyrtl.working_block()
-            if (uwb and wb_now is not post) or (not uwb and wb_now is not block):
-                ctx.spec_violation('synthesize:update_working_block',
-                                   'working block after synthesize(update_working_block=%s) is wrong' % uwb, rep)
-            pyrtl.set_working_block(block, no_sanity_check=True)
-            if not isinstance(post, pyrtl.core.PostSynthBlock):
-                ctx.spec_violation('synthesize:result-type', 'synthesize did not return a PostSynthBlock', rep)
-            census(ctx, post, 'post_nets_merged' if merge else 'post_nets_unmerged')
-            okshape, badnet = py_shape_ok(post, merge)
-            ctx.count('py_shape_ok', okshape)
-            if uwb and len(post.logic) > SHAPE_MAX_NETS:
-                ctx.count('coq_shapeb', 'skipped: > %d nets (Python mirror only)' % SHAPE_MAX_NETS)
-            elif uwb:   # one Coq shape evaluation per (design, merge)
-                pd = nlx.Dump(post)
-                shape_exprs.append('shape_case %s %s' % ('true' if merge else 'false', pd.coq()))
-                shape_cases.append(dict(i=i, merge=merge, rep=rep, py=okshape, badnet=badnet))
-            maps_ok = check_maps(ctx, d, post, merge, rep)
-            # ---- the same testbench on the synthesized block
-            t_post = None
-            bits = []
-            try:
-                t_post = run_post(d, post, merge, regmap, memmap, inputs, bits_of=bits)
-            except KeyError as e:
-                if memmap:
-                    ctx.spec_violation('synthesize:mem_map-not-keyed-by-original',
-                                       'Simulation(block=synthesized, memory_value_map={original MemBlock: ...}) raised '
-                                       'KeyError: PostSynthBlock.mem_map is keyed by the internal copy', rep)
-                    try:
-                        t_post = run_post(d, post, merge, regmap, memmap, inputs, mem_by_id_workaround=True)
-                    except Exception as e2:
-                        ctx.spec_violation('synthesize:testbench-raises', 'testbench raised on the synthesized block: %r' % e2, rep)
-                else:
-                    ctx.spec_violation('synthesize:testbench-raises', 'testbench raised KeyError %r on the synthesized block' % e, rep)
-            except Exception as e:
-                ctx.spec_violation('synthesize:testbench-raises', 'testbench raised %s on the synthesized block: %s' % (
-                    type(e).__name__, e), rep)
-            workaround = bool(memmap) and not maps_ok
-            sample = None
-            if i < 2 and merge and uwb:
-                sample = {'part': 'b', 'design': i, 'nets': base_rep['nets'][:6], 'inputs': inputs[:2],
-                          'original_outputs': dict(zip(outnames, t_orig[0])),
-                          'synthesized_outputs': dict(zip(outnames, t_post[0])) if t_post else None,
-                          'post_net_count': len(post.logic)}
-            ctx.case(('b', i, merge, uwb, tuple(map(tuple, t_orig))), nontrivial=nontrivial, sample=sample)
-            if t_post is None:
-                continue
-            if merge and uwb and len(bits) == len(inputs) and all(
-                    b is not None for bm in bits for bl in bm.values() for b in bl):
-                # every wire of the real synthesized block, re-assembled from its 1-bit wires
-                model_cases[-1]['t_post'] = [[sum(b << k for k, b in enumerate(bm[nm])) for nm in names]
-                                             for bm in bits]
-            if t_post == t_orig:
-                channels(ctx, d, post, merge, uwb, regmap, memmap, inputs, t_orig, outnames, rep, directed=(i < 0))
-            if t_post != t_orig:
-                classify_mismatch(ctx, d, block, merge, regmap, memmap, inputs, t_orig, t_post, outnames, rep)
-            elif merge != uwb:
-                default_value_runs(ctx, d, post, merge, regmap, memmap, inputs, outnames, rep)
-            elif len(bits) == len(full_orig):
-                # the invariant value(w) = sum_i bit(w_i) 2^i on EVERY wire of the original design, every cycle
-                bad = None
-                for c, (vals, bmap) in enumerate(zip(full_orig, bits)):
-                    for nm, bl in bmap.items():
-                        if any(b is None for b in bl):
-                            bad = (c, nm, 'no synthesized bit wire found', None)
+                try:
+                    post = pyrtl.synthesize(update_working_block=uwb, merge_io_vectors=merge, block=block)
+                except Exception as e:   # PyRTL errors and plain Python errors (IndexError, KeyError...) alike
+                    has_mem = bool(orig_memories(block))
+                    sig = ('synthesize:unmerged-io-memory-raises' if (not merge and has_mem and 'acceptable set' in str(e))
+                           else 'synthesize:raises')
+                    ctx.spec_violation(sig, 'synthesize(merge_io_vectors=%s) raised %s on a well-formed design%s: %s' % (
+                        merge, type(e).__name__, ' with a memory' if has_mem else '', str(e)[:200]), rep)
+                    ctx.case(('b', i, merge, uwb, 'raised'), nontrivial=nontrivial)
+                    pyrtl.set_working_block(block, no_sanity_check=True)
+                    continue
+                wb_now = pyrtl.working_block()
+                if (uwb and wb_now is not post) or (not uwb and wb_now is not block):
+                    ctx.spec_violation('synthesize:update_working_block',
+                                       'working block after synthesize(update_working_block=%s) is wrong' % uwb, rep)
+                pyrtl.set_working_block(block, no_sanity_check=True)
+                if not isinstance(post, pyrtl.core.PostSynthBlock):
+                    ctx.spec_violation('synthesize:result-type', 'synthesize did not return a PostSynthBlock', rep)
+                census(ctx, post, 'post_nets_merged' if merge else 'post_nets_unmerged')
+                okshape, badnet = py_shape_ok(post, merge)
+                ctx.count('py_shape_ok', okshape)
+                if uwb and len(post.logic) > SHAPE_MAX_NETS:
+                    ctx.count('coq_shapeb', 'skipped: > %d nets (Python mirror only)' % SHAPE_MAX_NETS)
+                elif uwb and (i < 0 or i % 2 == 0 or ctx.tier != 'quick'):   # quick: every other random design
+                    pd = nlx.Dump(post)
+                    shape_exprs.append('shape_case %s %s' % ('true' if merge else 'false', pd.coq()))
+                    shape_cases.append(dict(i=i, merge=merge, rep=rep, py=okshape, badnet=badnet))
+                maps_ok = check_maps(ctx, d, post, merge, rep)
+                # ---- the same testbench on the synthesized block
+                t_post = None
+                bits = []
+                try:
+                    t_post = run_post(d, post, merge, regmap, memmap, inputs, bits_of=bits)
+                except KeyError as e:
+                    if memmap:
+                        ctx.spec_violation('synthesize:mem_map-not-keyed-by-original',
+                                           'Simulation(block=synthesized, memory_value_map={original MemBlock: ...}) raised '
+                                           'KeyError: PostSynthBlock.mem_map is keyed by the internal copy', rep)
+                        try:
+                            t_post = run_post(d, post, merge, regmap, memmap, inputs, mem_by_id_workaround=True)
+                        except Exception as e2:
+                            ctx.spec_violation('synthesize:testbench-raises', 'testbench raised on the synthesized block: %r' % e2, rep)
+                    else:
+                        ctx.spec_violation('synthesize:testbench-raises', 'testbench raised KeyError %r on the synthesized block' % e, rep)
+                except Exception as e:
+                    ctx.spec_violation('synthesize:testbench-raises', 'testbench raised %s on the synthesized block: %s' % (
+                        type(e).__name__, e), rep)
+                workaround = bool(memmap) and not maps_ok
+                sample = None
+                if i < 2 and merge and uwb:
+                    sample = {'part': 'b', 'design': i, 'nets': base_rep['nets'][:6], 'inputs': inputs[:2],
+                              'original_outputs': dict(zip(outnames, t_orig[0])),
+                              'synthesized_outputs': dict(zip(outnames, t_post[0])) if t_post else None,
+                              'post_net_count': len(post.logic)}
+                ctx.case(('b', i, merge, uwb, tuple(map(tuple, t_orig))), nontrivial=nontrivial, sample=sample)
+                if t_post is None:
+                    continue
+                if merge and uwb and len(bits) == len(inputs) and all(
+                        b is not None for bm in bits for bl in bm.values() for b in bl):
+                    # every wire of the real synthesized block, re-assembled from its 1-bit wires
+                    model_cases[-1]['t_post'] = [[sum(b << k for k, b in enumerate(bm[nm])) for nm in names]
+                                                 for bm in bits]
+                if t_post == t_orig:
+                    channels(ctx, d, post, merge, uwb, regmap, memmap, inputs, t_orig, outnames, rep, directed=(i < 0))
+                if t_post != t_orig:
+                    classify_mismatch(ctx, d, block, merge, regmap, memmap, inputs, t_orig, t_post, outnames, rep)
+                elif merge != uwb:
+                    default_value_runs(ctx, d, post, merge, regmap, memmap, inputs, outnames, rep)
+                elif len(bits) == len(full_orig):
+                    # the invariant value(w) = sum_i bit(w_i) 2^i on EVERY wire of the original design, every cycle
+                    bad = None
+                    for c, (vals, bmap) in enumerate(zip(full_orig, bits)):
+                        for nm, bl in bmap.items():
+                            if any(b is None for b in bl):
+                                bad = (c, nm, 'no synthesized bit wire found', None)
+                                break
+                            got = sum(b << k for k, b in enumerate(bl))
+                            if got != vals[nm]:
+                                bad = (c, nm, vals[nm], got)
+                                break
+                        if bad:
                             break
-                        got = sum(b << k for k, b in enumerate(bl))
-                        if got != vals[nm]:
-                            bad = (c, nm, vals[nm], got)
-                            break
+                    ctx.count('bit_invariant_wires_checked', 'wires', len(full_orig[0]) if full_orig else 0)
                     if bad:
-                        break
-                ctx.count('bit_invariant_wires_checked', 'wires', len(full_orig[0]) if full_orig else 0)
-                if bad:
-                    sig = 'synthesize:bit-invariant'
-                    wbad = block.wirevector_by_name.get(bad[1])
-                    drv = [x for x in block.logic if x.dests and x.dests[0] is wbad]
-                    if (drv and drv[0].op == '-' and isinstance(bad[3], int)
-                            and len(wbad) == len(drv[0].args[0]) + 1 and (bad[2] ^ bad[3]) == 1 << (len(wbad) - 1)):
-                        sig = 'synthesize:sub-top-bit'
-                    elif (isinstance(wbad, pyrtl.Register) and bad[0] == 0 and wbad not in regmap
-                          and wbad.reset_value is not None and bad[3] == 0):
-                        sig = 'synthesize:reset-value-dropped'
-                    ctx.spec_violation(sig,
-                                       'wire %s of the original design is not spelled by its synthesized bits at cycle %d: '
-                                       'expected %s, bits give %s' % (bad[1], bad[0], bad[2], bad[3]), rep)
+                        sig = 'synthesize:bit-invariant'
+                        wbad = block.wirevector_by_name.get(bad[1])
+                        drv = [x for x in block.logic if x.dests and x.dests[0] is wbad]
+                        if (drv and drv[0].op == '-' and isinstance(bad[3], int)
+                                and len(wbad) == len(drv[0].args[0]) + 1 and (bad[2] ^ bad[3]) == 1 << (len(wbad) - 1)):
+                            sig = 'synthesize:sub-top-bit'
+                        elif (isinstance(wbad, pyrtl.Register) and bad[0] == 0 and wbad not in regmap
+                              and wbad.reset_value is not None and bad[3] == 0):
+                            sig = 'synthesize:reset-value-dropped'
+                        ctx.spec_violation(sig,
+                                           'wire %s of the original design is not spelled by its synthesized bits at cycle %d: '
+                                           'expected %s, bits give %s' % (bad[1], bad[0], bad[2], bad[3]), rep)
+            except Exception as e_cfg:   # noqa: E722 (reported, never swallowed)
+                import traceback
+                ctx.spec_violation('synthesize:unexpected-exception',
+                                   'unexpected %s while synthesizing / running the testbench on design %d '
+                                   '(merge_io_vectors=%s, update_working_block=%s): %s' % (
+                                       type(e_cfg).__name__, i, merge, uwb, traceback.format_exc()[-600:]),
+                                   dict(base_rep, merge_io_vectors=merge, update_working_block=uwb))
+                pyrtl.set_working_block(block, no_sanity_check=True)
 
     check_premises(ctx, 'c03prem', prem_items)
     # ---- reference semantics on the original dump (the oracle)
@@ -1287,13 +1301,41 @@ def testbench_on(simclass, d, post, merge, regmap, memmap, inputs, memkey=lambda
     return trace, obs
 
 
+_COMPILED_OK = None
+
+
+def compiled_available(ctx):
+    """CompiledSimulation needs a C compiler: probe once on a trivial ORIGINAL design, so that a missing toolchain
+    is a note in the evidence and never a VIOLATION"""
+    global _COMPILED_OK
+    if _COMPILED_OK is None:
+        saved = pyrtl.working_block()
+        try:
+            pyrtl.reset_working_block()
+            a = pyrtl.Input(2, 'a')
+            o = pyrtl.Output(2, 'o')
+            o <<= ~a
+            sim = pyrtl.CompiledSimulation()
+            sim.step({'a': 1})
+            _COMPILED_OK = sim.inspect('o') == 2
+        except Exception as e:
+            _COMPILED_OK = False
+            ctx.notes.append('CompiledSimulation unavailable in this environment (%s: %s); channel skipped' % (
+                type(e).__name__, str(e)[:120]))
+        finally:
+            pyrtl.set_working_block(saved, no_sanity_check=True)
+        ctx.count('compiled_simulation_available', _COMPILED_OK)
+    return _COMPILED_OK
+
+
 def channels(ctx, d, post, merge, uwb, regmap, memmap, inputs, t_orig, outnames, rep, directed):
     """every simulator and observation channel a testbench written against the original could use"""
     want = d._mem_obs
     sims = [('Simulation', pyrtl.Simulation)] if d.mems else []     # (Outputs under Simulation were compared already)
     if directed or (uwb and not merge):
         sims.append(('FastSimulation', pyrtl.FastSimulation))
-    if len(post.logic) <= COMPILED_MAX_NETS and (merge and not uwb or (directed and not merge and uwb)):
+    if len(post.logic) <= COMPILED_MAX_NETS and (merge and not uwb or (directed and not merge and uwb)) \
+            and compiled_available(ctx):
         sims.append(('CompiledSimulation', pyrtl.CompiledSimulation))
     for nm, cls in sims:
         ctx.count('simulators_on_synthesized', nm)
